@@ -4,7 +4,7 @@
 import random
 import itertools
 
-COSTS = [(1, 1, 2, 2), (1, 1, 0, 0), (2, 1, 1, 5), (1, 3, 5, 1), (3, 2, 1, 1), (1, 4, 2, 2), (2, 3, 7, 4), (1, 1, 9, 9)]
+COSTS = [(1, 1, 2, 2), (1, 1, 0, 0), (2, 1, 1, 5), (1, 3, 5, 1), (3, 2, 1, 1), (1, 1, 0, 1), (1, 2, 0, 3), (2, 1, 3, 0), (1, 4, 2, 2), (2, 3, 7, 4), (1, 1, 9, 9)]
 
 
 class Gen:
@@ -134,7 +134,7 @@ def generate(seed, tier):
             g.mixed(N, s, rng.choice(["RAM", "DISK"]), "memo")
     # ---------------- Revolve family
     NN, RR, DD = (22, 4, 3) if thorough else (14, 3, 2)
-    costs = COSTS if thorough else COSTS[:5]
+    costs = COSTS if thorough else COSTS[:8]
     for N in range(1, NN + 1):
         for r in range(1, RR + 1):
             for c in costs:
@@ -198,6 +198,43 @@ def generate(seed, tier):
                 kind = rng.choice(["hrevolve", "revolve"])
             g.history("hist.revfam", "rev %s %d %d %d 1 1 2 2" % (kind, N, rng.randint(1, 3), rng.randint(0, 2)),
                       N, rng.randint(3, L), False, False, None, None, N)
+    # ---------------- interleaved objects sharing the process (C15): I line for the implementation, S lines for the model
+    def sub_case():
+        c = rng.randint(0, 7)
+        N = rng.randint(1, 14)
+        nn = ["n"] * rng.randint(4, 45)
+        if c == 0:
+            return "multi %d %d %d %s | %d 0 - - | %s" % (N, rng.randint(0, 3), rng.randint(1, 3), rng.choice(["max", "rev"]), N, " ".join(nn))
+        if c == 1:
+            return "mixed %d %d %s %s | %d 0 - - | %s" % (N, rng.randint(1, 4), rng.choice(["RAM", "DISK"]), rng.choice(["memo", "tab"]), N, " ".join(nn))
+        if c == 2:
+            P = rng.randint(1, 4)
+            return "two %d %d %s %s | %d 0 - - | %s f%d %s" % (P, rng.randint(0, 3), rng.choice(["RAM", "DISK"]), rng.choice(["max", "rev"]), N,
+                                                               " ".join(["n"] * (-(-N // P))), N, " ".join(nn))
+        if c == 3:
+            return "disk %d | %d 0 - - | %s f%d %s" % (rng.randint(0, 1), N, " ".join(["n"] * N), N, " ".join(nn))
+        if c == 4:
+            return "mem | %d 1 - - | n f%d %s" % (N, N, " ".join(nn[:8]))
+        kind = ["revolve", "disk", "periodic", "hrevolve"][c - 4] if c - 4 < 4 else "hrevolve"
+        co = rng.choice(COSTS)
+        return "rev %s %d %d %d %d %d %d %d | %d 0 - - | %s" % (kind, N, rng.randint(1, 3), rng.randint(0, 2), co[0], co[1], co[2], co[3], N, " ".join(nn))
+    for i in range(120 if thorough else 40):
+        k = rng.randint(2, 4)
+        subs = [sub_case() for _ in range(k)]
+        nops = [len(x.split("|")[2].split()) for x in subs]
+        order = []
+        left = list(nops)
+        while sum(left) > 0:
+            j = rng.choice([a for a in range(k) if left[a] > 0])
+            burst = min(left[j], rng.randint(1, 3))
+            order += [j] * burst
+            left[j] -= burst
+        ident = "inter.objects:%d" % i
+        g.cases.append("I %s %s | %s" % (ident, " ".join(map(str, order)), " || ".join(subs)))
+        for j, x in enumerate(subs):
+            g.cases.append("S %s/%d %s" % (ident, j, x))
+    for i in range(8 if thorough else 3):
+        g.add("val.eq", "V pairs %d %d" % (rng.randint(0, 10 ** 6), 400))
     # ---------------- pure functions
     NN, SS = (260, 24) if thorough else (120, 14)
     for n in range(0, NN + 1):
